@@ -92,7 +92,47 @@ func runC32(c *core.Ctx) {
 	var thrSite cmpSite
 	sites, releaseSites := cmpSites(fn)
 	defer releaseSites()
-	isPhiLeaf := func(v ssa.Value) bool { _, isPhi := ir.Resolve(v).(*ssa.Phi); return isPhi }
+	// a counter is a loop-carried value of fn, or — when the counting loop lives in a module helper that
+	// returns the counters — the value the helper's one counting return gives for that result
+	leafPhi := func(v ssa.Value) (*ssa.Phi, *ssa.Function, *ssa.Call) {
+		v = ir.Resolve(v)
+		if p, ok := v.(*ssa.Phi); ok {
+			return p, fn, nil
+		}
+		ex, ok := v.(*ssa.Extract)
+		if !ok {
+			return nil, nil, nil
+		}
+		cl, ok := ex.Tuple.(*ssa.Call)
+		if !ok {
+			return nil, nil, nil
+		}
+		h := cl.Common().StaticCallee()
+		if h == nil || !ir.InModule(h) || len(h.Blocks) == 0 {
+			return nil, nil, nil
+		}
+		var phi *ssa.Phi
+		n := 0
+		for _, b := range h.Blocks {
+			ret, isRet := b.Instrs[len(b.Instrs)-1].(*ssa.Return)
+			if !isRet || ex.Index >= len(ret.Results) {
+				continue
+			}
+			switch r := ret.Results[ex.Index].(type) {
+			case *ssa.Phi:
+				phi = r
+				n++
+			case *ssa.Const: // the zero returned beside an error
+			default:
+				n += 2
+			}
+		}
+		if n != 1 {
+			return nil, nil, nil
+		}
+		return phi, h, cl
+	}
+	isPhiLeaf := func(v ssa.Value) bool { p, _, _ := leafPhi(v); return p != nil }
 	for _, st := range sites {
 		if b := st.B; b.Op == token.GEQ || b.Op == token.LSS {
 			if isPhiLeaf(b.X) {
@@ -106,10 +146,10 @@ func runC32(c *core.Ctx) {
 		c.Broken("C32.threshold", fn, "num >= T(sum) comparison", c.P.Rel(fn.Pos()), "not found")
 		return
 	}
-	numPhi := ir.Resolve(thr.X).(*ssa.Phi)
+	numPhi, cfn, countCall := leafPhi(thr.X)
 	var sumPhi *ssa.Phi
 	tree, err := eng.ExtractExpr(thr.Y, func(v ssa.Value) bool {
-		if p, ok := ir.Resolve(v).(*ssa.Phi); ok && p != numPhi {
+		if p, h, _ := leafPhi(v); p != nil && p != numPhi && h == cfn {
 			sumPhi = p
 			return true
 		}
@@ -143,10 +183,15 @@ func runC32(c *core.Ctx) {
 		eng.MustPassCall(c, "C32.sign-set-stored", fn, "putConsensusSigns(key, set)", eng.CallPred(putCS), falseOK, "return (false, nil)", nil)
 	}
 
-	// 4. counting loop
-	loops := eng.FindMapLoops(fn, func(v ssa.Value) bool { return isFieldNamed(v, "PeerPoolMap") })
+	// 4. counting loop (in cfn, or in the helper that returns the counters)
+	if cfn != fn {
+		unbindCount := ir.BindParams(cfn, countCall.Common().Args)
+		defer unbindCount()
+		c.Attribute(cfn, fn)
+	}
+	loops := eng.FindMapLoops(cfn, func(v ssa.Value) bool { return isFieldNamed(v, "PeerPoolMap") })
 	if len(loops) != 1 {
-		c.Broken("C32.count", fn, "range over PeerPoolMap", c.P.Rel(fn.Pos()), sprintf("%d loops", len(loops)))
+		c.Broken("C32.count", cfn, "range over PeerPoolMap", c.P.Rel(cfn.Pos()), sprintf("%d loops", len(loops)))
 		return
 	}
 	lp := loops[0]
@@ -158,7 +203,7 @@ func runC32(c *core.Ctx) {
 	if cl, idx := ir.CallOf(base); cl != nil && idx == 0 && ir.CalleeIs(cl, gppm) {
 		okPool = isCallTo(cl.Common().Args[1], gv)
 	}
-	c.Decide(okPool, "C32.count", fn, "counted pool = GetPeerPoolMap(native, GetView(native)) (the current view)", c.P.Rel(lp.Range.Pos()), "")
+	c.Decide(okPool, "C32.count", cfn, "counted pool = GetPeerPoolMap(native, GetView(native)) (the current view)", c.P.Rel(lp.Range.Pos()), "")
 
 	consensusStatus, _ := c.P.Const(pkNM, "ConsensusStatus")
 	statusGuard := eng.NamedGuard{Name: "v.Status == ConsensusStatus", G: func(cd ir.Cond) (bool, bool) {
@@ -189,7 +234,7 @@ func runC32(c *core.Ctx) {
 	}}
 	incOf := func(phi *ssa.Phi) []ir.Sink {
 		var out []ir.Sink
-		for _, b := range fn.Blocks {
+		for _, b := range cfn.Blocks {
 			for _, in := range b.Instrs {
 				if bo, ok := in.(*ssa.BinOp); ok && bo.Op == token.ADD && (bo.X == ssa.Value(phi) || bo.Y == ssa.Value(phi)) {
 					out = append(out, ir.Sink{Instr: bo, Note: "increment"})
@@ -199,28 +244,28 @@ func runC32(c *core.Ctx) {
 		return out
 	}
 	numInc, sumInc := incOf(numPhi), incOf(sumPhi)
-	c.Decide(len(numInc) == 1 && len(sumInc) == 1, "C32.count", fn, "num and sum are each incremented at exactly one place", c.P.Rel(lp.Range.Pos()), sprintf("%d/%d", len(numInc), len(sumInc)))
+	c.Decide(len(numInc) == 1 && len(sumInc) == 1, "C32.count", cfn, "num and sum are each incremented at exactly one place", c.P.Rel(lp.Range.Pos()), sprintf("%d/%d", len(numInc), len(sumInc)))
 	for _, s := range append(append([]ir.Sink{}, numInc...), sumInc...) {
 		bo := s.Instr.(*ssa.BinOp)
 		k, okk := ir.ConstInt(bo.Y)
-		c.Decide(okk && k == 1, "C32.count", fn, "increment is +1", c.P.Rel(bo.Pos()), "")
+		c.Decide(okk && k == 1, "C32.count", cfn, "increment is +1", c.P.Rel(bo.Pos()), "")
 	}
 	opt := &eng.Opt{StartBlock: lp.Body}
-	eng.Dominates(c, "C32.count", fn, statusGuard, numInc, "num++ (per iteration)", opt)
-	eng.Dominates(c, "C32.count", fn, memberGuard, numInc, "num++ (per iteration)", opt)
-	eng.Dominates(c, "C32.count", fn, statusGuard, sumInc, "sum++ (per iteration)", opt)
+	eng.Dominates(c, "C32.count", cfn, statusGuard, numInc, "num++ (per iteration)", opt)
+	eng.Dominates(c, "C32.count", cfn, memberGuard, numInc, "num++ (per iteration)", opt)
+	eng.Dominates(c, "C32.count", cfn, statusGuard, sumInc, "sum++ (per iteration)", opt)
 	// sum counts every consensus peer: from the status-pass edge the sum increment is unavoidable before the next iteration
 	{
-		notCons := ir.PassEdges(fn, func(cd ir.Cond) (bool, bool) {
+		notCons := ir.PassEdges(cfn, func(cd ir.Cond) (bool, bool) {
 			ok, passTrue := statusGuard.G(cd)
 			return ok, !passTrue
 		})
-		r := ir.NewReach(fn).CutEdges(notCons)
+		r := ir.NewReach(cfn).CutEdges(notCons)
 		for _, s := range sumInc {
 			r.Barrier[s.Instr] = true
 		}
 		r.RunFromBlock(lp.Body)
-		c.Decide(!r.BlockEntered(lp.Header) && len(notCons) > 0, "C32.count", fn, "every ConsensusStatus entry is counted in sum (N = all current consensus validators)", c.P.Rel(lp.Range.Pos()),
+		c.Decide(!r.BlockEntered(lp.Header) && len(notCons) > 0, "C32.count", cfn, "every ConsensusStatus entry is counted in sum (N = all current consensus validators)", c.P.Rel(lp.Range.Pos()),
 			"from the Status==ConsensusStatus edge every path to the next iteration executes sum++ (failing returns excepted)")
 	}
 
